@@ -19,10 +19,14 @@ def pcName : Pc → String
   | .plotting s => s!"plotting:{s}" | .finished s => s!"finished:{s}"
 
 def dump (k : K) : String :=
-  let shown := (k.ws.filter (fun w => w.inAll || !w.idx.isEmpty || k.list.contains w.sid)).mergeSort (fun a b => a.sid ≤ b.sid)
-  let rows := shown.map fun w =>
-    let bits := String.join ([St.registered, .plotting, .ready, .mining].map (fun s => b01 (w.idx.contains s)))
-    s!" [{w.sid} f={stName w.field} idx={bits} all={b01 w.inAll} u={b01 w.inUse}]"
+  let rows := (List.range k.n).filterMap fun sid =>
+    match k.ws sid with
+    | none => none
+    | some w =>
+      if w.inAll || !w.idx.isEmpty || k.list.contains sid then
+        let bits := String.join ([St.registered, .plotting, .ready, .mining].map (fun s => b01 (w.idx.contains s)))
+        some s!" [{sid} f={stName w.field} idx={bits} all={b01 w.inAll} u={b01 w.inUse}]"
+      else none
   let q := (k.queue.map (·.sid)).mergeSort (fun a b => toString a ≤ toString b)
   let popped := match k.popped with
     | some r => s!"{r.sid}:{b01 r.wouldMining}"
